@@ -28,8 +28,10 @@ def run(tier):
         ({"sigs": {1: "u8"}, "threads": [[F(1, 100), F(1, 100), ("L",)]], "closer": 0}, 0),
         ({"sigs": {1: "u8"}, "threads": [[("L",), F(1, 100), F(1, 100)]], "closer": 1}, 0),
         ({"sigs": sig2, "threads": [[F(1, 100), ("L",)], [F(3, 100)]], "closer": 0}, 0),
+        ({"sigs": sig2, "threads": [[("X", 1), F(1, 100)], [F(3, 100)]], "closer": 0}, 0),
     ]
     graph_progs = [
+        ({"sigs": {1: "u8"}, "threads": [[F(1, 100), ("X", 1), F(1, 100)]], "closer": 0}, 0, 1),
         ({"sigs": {1: "u8"}, "threads": [[F(1, 100), F(1, 100), ("L",)]], "closer": 0}, 0, 2),
         ({"sigs": {1: "u8"}, "threads": [[F(1, 200), ("L",)]], "closer": 1}, 0, 3),
     ]
